@@ -84,3 +84,17 @@ Proof.
   exists 128, [agg_witness], agg_witness_bytes. split; [exact agg_witness_legal|].
   vm_compute. intro H. discriminate H.
 Qed.
+
+(* Not a finding (every caller passes prevHeader = nil), recorded: the
+   previous-header compression of message2Chunks is not decodable.  A second
+   message with the same stream id / length / type / timestamp as the first is
+   written with a type 3 header meaning "same timestamp"; every reader adds the
+   remembered timestamp field again (1000 -> 2000). *)
+Lemma prev_header_compression_unreadable :
+  let h := mk_hdr 4 2 9 1 1000 in
+  exists b1 b2,
+    message2chunks 128 h None [1; 2] = Ok b1 /\ message2chunks 128 h (Some h) [3; 4] = Ok b2 /\
+    delivered (run_composer (init_cstate 128) (b1 ++ b2))
+    = [mk_smsg 4 9 1 1000 [1; 2]; mk_smsg 4 9 1 2000 [3; 4]] /\
+    ref_decode 128 (b1 ++ b2) = Some [mk_smsg 4 9 1 1000 [1; 2]; mk_smsg 4 9 1 2000 [3; 4]].
+Proof. eexists. eexists. repeat split; vm_compute; reflexivity. Qed.
